@@ -17,6 +17,8 @@ def main():
         if r.error:
             print('%-75s ERROR %s' % (q, r.error[:120]))
             continue
+        for w in getattr(r, 'warnings', []):
+            print('   WARNING', w)
         res = solve.discharge(r.obligations, 'quick')
         bad = sorted(set(o.name.split('/', 1)[1] + ':' + x['verdict'] for o, x in zip(r.obligations, res) if x['verdict'] != 'unsat'))
         be = sorted(set(str(x['backend']) for x in res))
